@@ -2,6 +2,7 @@ package checks
 
 import (
 	"fmt"
+	"sort"
 	"strings"
 
 	"github.com/DrmagicE/gmqtt"
@@ -38,6 +39,7 @@ type c16State struct {
 	held     bool
 	aLostB   bool
 	bLostA   bool
+	subs     map[string]map[string]bool // reference: topic -> clients of A subscribed to it
 	nmsg     int
 }
 
@@ -57,16 +59,46 @@ func c16Setup() *c16State {
 	return st
 }
 
+func (st *c16State) refSub(client, topic string, on bool) {
+	if st.subs == nil {
+		st.subs = map[string]map[string]bool{}
+	}
+	if on {
+		if st.subs[topic] == nil {
+			st.subs[topic] = map[string]bool{}
+		}
+		st.subs[topic][client] = true
+		return
+	}
+	delete(st.subs[topic], client)
+	if len(st.subs[topic]) == 0 {
+		delete(st.subs, topic)
+	}
+}
+
+func (st *c16State) refTopics() string {
+	var out []string
+	for t := range st.subs {
+		out = append(out, t)
+	}
+	sort.Strings(out)
+	return strings.Join(out, ",")
+}
+
 func c16Apply(st *c16State, op int) bool {
 	switch op {
 	case 0:
 		st.a.Subscribed("c1", "t1")
+		st.refSub("c1", "t1", true)
 	case 1:
 		st.a.Unsubscribed("c1", "t1")
+		st.refSub("c1", "t1", false)
 	case 2:
 		st.a.Subscribed("c2", "$share/g/t2")
+		st.refSub("c2", "$share/g/t2", true)
 	case 3:
 		st.a.SessionTerminated("c2")
+		st.refSub("c2", "$share/g/t2", false)
 	case 4:
 		st.nmsg++
 		pl := fmt.Sprintf("p%d", st.nmsg)
@@ -113,6 +145,7 @@ func c16Apply(st *c16State, op int) bool {
 		st.c.Join("A")
 	case 13:
 		st.a.Subscribed("c3", "t3")
+		st.refSub("c3", "t3", true)
 	case 14:
 		if st.held {
 			return false
@@ -185,6 +218,10 @@ func c16Check(st *c16State, bad func(rule, class, want, got string)) {
 				cl += ":after-resync"
 			}
 			bad("view-equals-local", cl, local, view+" queue="+fmt.Sprint(st.a.QueuedEvents(p.n)))
+			return
+		}
+		if ref := st.refTopics(); strings.Join(p.node.ViewOf("A"), ",") != ref {
+			bad("view-equals-local", "peer-view-differs-from-the-subscriptions-made:"+p.n, ref, strings.Join(p.node.ViewOf("A"), ","))
 			return
 		}
 		// (an event whose ack was lost legitimately stays queued until a later ack; what
@@ -280,6 +317,7 @@ func c16Concurrent(obs *c16Obs, cuts int) func() {
 			}
 		})
 		st.emitted = []string{"m/x=p1", "m/x=p2"}
+		st.refSub("c2", "$share/g/t2", true) // what remains once the emitter threads have finished
 		vsched.Go("faults", func() {
 			for i := 0; i < cuts; i++ {
 				vsched.Point("fault")
